@@ -77,9 +77,9 @@ theorem fieldStep_tag {r : Req} {a b : Bool} {k v : Bytes} {r' : Req} {rs ss : B
   repeat' split at h
   all_goals (cases h; try rfl)
 
-theorem readHeader_tag (fuel : Nat) (st : Hpack.DecState) (r : Req) (a b : Bool) (bs : Bytes) :
-    (readHeader fuel st r a b bs).2.1.tag = r.tag := by
-  induction fuel generalizing st r a b bs with
+theorem readHeader_tag (fuel : Nat) (st : Hpack.DecState) (r : Req) (a b : Bool) (nf : Nat) (bs : Bytes) :
+    (readHeader fuel st r a b nf bs).2.1.tag = r.tag := by
+  induction fuel generalizing st r a b nf bs with
   | zero => simp [readHeader]
   | succ k ih =>
     simp only [readHeader]
@@ -99,21 +99,21 @@ theorem othersSame_readStream (c : Conn) (tag : String) (r : Req) (f : Frame.Fra
     OthersSame tag c (readStream c tag r f).1 := by
   unfold readStream
   split
-  · exact (OthersSame.of_reqs rfl).trans (othersSame_updReq _ tag _ (fun _ _ => (readHeader_tag _ _ _ _ _ _).trans hr))
-  · exact (OthersSame.of_reqs rfl).trans (othersSame_updReq _ tag _ (fun _ _ => (readHeader_tag _ _ _ _ _ _).trans hr))
+  · simp only
+    split
+    · exact (OthersSame.of_reqs rfl).trans (othersSame_updReq _ tag _ (fun _ _ => (readHeader_tag _ _ _ _ _ _ _).trans hr))
+    · exact OthersSame.of_reqs rfl
+  · simp only
+    split
+    · exact (OthersSame.of_reqs rfl).trans (othersSame_updReq _ tag _ (fun _ _ => (readHeader_tag _ _ _ _ _ _ _).trans hr))
+    · exact OthersSame.of_reqs rfl
   · exact OthersSame.refl _ _
   · have h1 : ∀ d : Bytes, OthersSame tag c
-        (if (d.length != 0) = true then
-          queueOut (updReq { c with currentWindow := c.currentWindow - ↑f.length } tag fun q => { q with body := q.body ++ d })
-            (.windowUpdate f.stream f.length)
-         else { c with currentWindow := c.currentWindow - ↑f.length }) := by
+        (if (d.length != 0) = true then updReq c tag fun q => { q with body := q.body ++ d } else c) := by
       intro d
       split
-      · have a1 : OthersSame tag c { c with currentWindow := c.currentWindow - ↑f.length } := OthersSame.of_reqs rfl
-        have a2 := othersSame_updReq { c with currentWindow := c.currentWindow - ↑f.length } tag
-          (fun q => { q with body := q.body ++ d }) (fun _ h => h)
-        exact (a1.trans a2).trans (OthersSame.of_reqs rfl)
-      · exact OthersSame.of_reqs rfl
+      · exact othersSame_updReq c tag (fun q => { q with body := q.body ++ d }) (fun _ h => h)
+      · exact OthersSame.refl _ _
     simp only
     split
     · exact (h1 _).trans (OthersSame.of_reqs rfl)
